@@ -9,7 +9,15 @@ claim("C08", "grammar-language enumeration vs operator-table keys (AST + types),
       "equivalences themselves (that needs evaluation); a failure shows a source text on which compile/eval crashes instead of behaving "
       "like its documented equivalent.", NOTE, "DESIGN.md §3 C08")
 
-for pid in ["C01","C02","C03","C04","C05","C06","C07","C09","C10","C11","C12","C13","C15","C16","C17","C18","C19","C20"]:
+claim("C06", "type-specialised SCCP over go/ssa on all ordered pairs of value types (incl. @neg wrappers); table evaluation of compareOps; comparator provenance over VTA-resolved sort sites",
+      "Decides, for all values at once, the type-level part of the order: (R06a) for every ordered pair of distinct value types - 19 Go types plus the "
+      "(@neg: x) wrapper refinement of each - T.Less(U) and U.Less(T) fold to constants of which exactly one is true, Equal folds to false, the induced "
+      "order on types is transitive and agrees with Kind(); no same-kind Less definitely panics; (R06b) Kind() constants distinct and registered once; "
+      "(R06c) < > <= >= (and negations) in compareOps match the truth table of a strict total order; (R06d) every sort/ordered-range comparator "
+      "decides through Value.Less in the forward direction; (R06e) max/min reducers pick by Less in the right direction. Within-kind comparisons "
+      "(value-level, e.g. Relation.Less with differing headings) are not decided.", NOTE, "DESIGN.md §3 C06")
+
+for pid in ["C01","C02","C03","C04","C05","C07","C09","C10","C11","C12","C13","C15","C16","C17","C18","C19","C20"]:
     na(pid, "check under construction in this session (see DESIGN.md §3); not claimed until its rules are registered")
 na("C14", "agreement of a hand-written array matcher with strings/bytes over all sequences is a relation between runtime values computed by "
           "loops with data-dependent indices; no sound structural clause with teeth exists (DESIGN.md §3 C14)")
